@@ -116,6 +116,8 @@ def build(spec, env):
         cmds = ['z Z1 %s' % hx(a), 'z Z2 %s' % hx(b), 'c mpz_gcd Z3 Z1 Z2', 'c mpz_gcdext Z3 Z4 Z5 Z1 Z2', 'c mpz_lcm Z3 Z1 Z2']
         inv = abs(b) > 1
         cmds.append('c mpz_invert Z3 Z1 Z2' if inv else 'ping')
+        # the symbol over the same operand pairs: the sub-quadratic Jacobi code only starts at GCD_DC_THRESHOLD limbs
+        cmds.append('c mpz_jacobi Z1 Z2')
         big = max(an, bn) > 400
         def check(rep, a=a, b=b, mode=mode, inv=inv, big=big):
             out = []; g = math.gcd(a, b)
@@ -135,8 +137,10 @@ def build(spec, env):
                 v, _ = split_reply(rep[5]); ex = g == 1
                 if (int(v[0]) != 0) != ex: out.append(('mpz_invert:existence', sz + ' a=%s b=%s ret=%s' % (hx(a)[:60], hx(b)[:60], v[0])))
                 elif ex and I(v[1]) != pow(a, -1, abs(b)): out.append(('mpz_invert:value', sz + ' a=%s b=%s' % (hx(a)[:60], hx(b)[:60])))
+            v, _ = split_reply(rep[6])
+            if int(v[0]) != models.kron(a, b): out.append(('mpz_jacobi:wrong:%s' % mode, sz + ' a=%s b=%s got=%s want=%d' % (hx(a)[:60], hx(b)[:60], v[0], models.kron(a, b))))
             return out
-        return Case(cmds, check, 4 if inv else 3, ('z', mode, szb(an), szb(bn), sg), trivial=(a == 0 or b == 0))
+        return Case(cmds, check, 5 if inv else 4, ('z', mode, szb(an), szb(bn), sg), trivial=(a == 0 or b == 0))
     if kind == 'n':
         _, an, bn, mode, _s = spec
         a, b = make_pair(r, an, bn, mode)
